@@ -5,7 +5,7 @@ CONSTANTS
   ClampFixed = TRUE
   CheckDigests = TRUE
   CheckLoadings = TRUE
-INVARIANTS ExactEnd NoOvershoot Contiguous CleanAttempt RowsOrdered AllRequested
+INVARIANTS MaxStepRespected ExactEnd NoOvershoot Contiguous CleanAttempt RowsOrdered AllRequested
 CONSTRAINT TrackMaxL
 POSTCONDITION ReportMaxL
 CHECK_DEADLOCK FALSE
